@@ -26,6 +26,8 @@ pub enum AckArg {
     Truncated(u8),
     WrongTag,
     Raw(Vec<u8>),
+    /// the right digest with one bit flipped (bit index 0..127), or with its first / second half replaced
+    NearMiss(u8),
 }
 
 #[derive(Clone, Debug, Serialize, Deserialize, PartialEq)]
@@ -240,6 +242,15 @@ pub fn api_oracle(c: &ApiCase) -> Verdict {
                         (m, false)
                     }
                     AckArg::Raw(b) => (b.clone(), false),
+                    AckArg::NearMiss(k) => {
+                        let mut d = handshake_digest(cookie, issued.unwrap_or(7));
+                        match *k {
+                            0..=127 => d[(*k / 8) as usize] ^= 1 << (*k % 8),
+                            128..=191 => d[..8].copy_from_slice(&[0x5A; 8]),
+                            _ => d[8..].copy_from_slice(&[0xA5; 8]),
+                        }
+                        (proto::ack(&d), false)
+                    }
                 };
                 let r = np!(sm.handle_challenge_ack(&msg));
                 if correct {
@@ -334,6 +345,7 @@ fn api_strategy() -> impl Strategy<Value = ApiCase> {
         1 => any::<u8>().prop_map(AckArg::Truncated),
         1 => Just(AckArg::WrongTag),
         1 => prop::collection::vec(any::<u8>(), 0..24).prop_map(AckArg::Raw),
+        2 => any::<u8>().prop_map(AckArg::NearMiss),
     ];
     let op = prop_oneof![
         2 => Just(Op::Begin),
